@@ -153,6 +153,7 @@ def execute(scn, keep_log=False, hook=None):
         sure = sum(1 for r in inflight[m['stack']] if r['kind'] == mode and r['done'] is None and not r.get('parked_call'))
         maybe = sum(1 for r in inflight[m['stack']] if r['kind'] == mode and (r['done'] is None or sim.now < r['done'] + release_slack))
         before_frames = len(bus.frames) + len(bus.suppressed)
+        lock_waits0 = sim.lock_waits
         before = snapshot(st)
         # registered before the call: a submission nested inside this call's own transmission must see this session as in use
         sa0 = st.cfg['cas'][m['ca']]['addr']
@@ -205,8 +206,8 @@ def execute(scn, keep_log=False, hook=None):
                          'msg': 'send_pgn refused a %s message although at most %d of %d sessions can be in use' % (mode, maybe, CAP[mode])})
         else:
             stats['refused_at_capacity'] += 1
-        if was_held:
-            return          # frames and tables legitimately moved on while the call was held
+        if was_held or sim.lock_waits != lock_waits0:
+            return          # frames and tables legitimately moved on while the call was held (or waited for a lock another thread held)
         if len(bus.frames) + len(bus.suppressed) != before_frames:
             viol.append({'clause': 'refused-call-emitted-frames', 'rank': 1, 'feat': {'mode': mode},
                          'msg': 'a refused send_pgn put %d frame(s) on the bus' % (len(bus.frames) + len(bus.suppressed) - before_frames)})
